@@ -5,6 +5,7 @@ use crate::rng::Rng;
 pub const LINES: &[&str] = &[
     "PRINT \"HELLO\"", "PRINT 1;2,3", "PRINT A$;\" \";B", "PRINT TAB(5);X;SPC(2);Y", "PRINT", "PRINT 1+2*3;", "? \"X\",",
     "PRINT \"AB\"+CHR$(10)+\"CD\";POS(0);", "PRINT CHR$(10);TAB(3);\"x\",CHR$(13);POS(0)", "LIST 0", "LIST 0-", "LIST -0", "DELETE 0", "DELETE 0-0", "LIST 65529", "DELETE 65529-", "LIST 65530", "DELETE -65530", "LIST 0-65529",
+    "A$=\"PORTLAND, ME\":MID$(A$,1)=\"é\":PRINT A$;LEN(A$)", "B$=\"αβγδεζ\":MID$(B$,2,5)=\"€€\":PRINT B$", "MID$(A$,3,1)=\"日本\"",
     "LET A=5", "A=5", "A$=\"abc\"+B$", "A%=7:B!=1.5:C#=2.5D3", "A(1,2)=3", "A$(I)=MID$(B$,2,3)", "X=-Y^2", "X=NOT A AND B OR C XOR D IMP E EQV F",
     "X=1<2", "X=A<=B", "X=A>=B", "X=A<>B", "X=(1+2)*(3-4)/5\\6 MOD 7", "X=&HFF+&17", "X=1E5+2.5E-3+3D2", "X=SIN(1)+COS(2)*ATN(3)", "X=LEN(A$)+ASC(B$)+VAL(C$)",
     "A$=LEFT$(B$,2)+RIGHT$(B$,1)+CHR$(65)+STR$(5)+HEX$(255)+OCT$(8)+STRING$(3,\"x\")", "X=INSTR(A$,B$)+INSTR(2,A$,B$)", "X=RND(1)+RND+POS(0)", "X=FNA(1)+FNB(2,3)",
